@@ -576,8 +576,8 @@ pub fn generate_reads(ctx: &mut Ctx, prop: &str) {
         let n_random = match (prop, quick) { ("C05", true) => 400, (_, true) => 120, ("C05", false) => 20_000, (_, false) => 4_000 };
         for i in 0..n_random {
             let fl = if i % 2 == 0 { Flavour::Blocking } else { Flavour::Tokio };
-            let long = i % 40 == 7;
-            let k = if long { 200 + ctx.rng.below(400) as usize } else { ctx.rng.below(7) as usize };
+            let long = i % 40 == 7 || i % 40 == 8; // one tokio and one blocking long session per 40
+            let k = if long { 700 + ctx.rng.below(400) as usize } else { ctx.rng.below(7) as usize };
             let mut frames = vec![];
             for _ in 0..k {
                 let r = ctx.rng.below(100);
